@@ -894,7 +894,7 @@ def case_rewrap(ctx, case):
     kind = d['k']
     cls = {'T': navis.TreeNeuron, 'M': navis.MeshNeuron}[kind]
     x = build(d)
-    default = case.get('default', False)
+    default = bool(case.get('default', False)) or spec is None      # `units=None` *is* the default
     hd = 'D' if default else ' '.join(unit_args(spec))
     try:
         y = cls(x) if default else cls(x, units=unit_obj(spec))
